@@ -1677,7 +1677,12 @@ func (self *ReplicationAckDB) ProcessLeaderPushLock(glockIndex uint16, aofLock *
 	aofId := aofLock.GetAofId()
 	self.commandAofs[glockIndex][lock.command.RequestId] = aofId
 	self.aofLocks[glockIndex][aofId] = lock
-	lock.ackCount = self.ackCount
+	// high bit: the leader's own flush is outstanding; low bits: follower acks still needed
+	need := self.ackCount
+	if need == 0 {
+		need = 1
+	}
+	lock.ackCount = 0x80 | ((need - 1) & 0x7f)
 	self.ackGlocks[glockIndex].Unlock()
 	return nil
 }
@@ -1722,7 +1727,9 @@ func (self *ReplicationAckDB) ProcessLeaderAcked(glockIndex uint16, aofLock *Aof
 			return nil
 		}
 
-		lock.ackCount--
+		if lock.ackCount&0x7f > 0 {
+			lock.ackCount--
+		}
 		if lock.ackCount > 0 {
 			self.ackGlocks[glockIndex].Unlock()
 			return nil
@@ -1757,7 +1764,7 @@ func (self *ReplicationAckDB) ProcessLeaderAofed(glockIndex uint16, aofLock *Aof
 			return nil
 		}
 
-		lock.ackCount--
+		lock.ackCount &= 0x7f
 		if lock.ackCount > 0 {
 			self.ackGlocks[glockIndex].Unlock()
 			return nil
